@@ -210,6 +210,8 @@ type hset struct {
 	xfp, xfh, xfu []string
 	framing       string // class name
 	flagged       bool   // framing the stack must flag
+	clConflict    bool   // ... because the Content-Length values disagree
+	teBad         bool   // ... because Transfer-Encoding does not end in chunked
 	clValue       string // canonical Content-Length value ("" = none)
 	teChunked     bool
 	body          []byte // wire body bytes (after the head)
@@ -386,73 +388,89 @@ func (g *genCtx) draw() *hset {
 	return h
 }
 
-// drawFraming adds Content-Length / Transfer-Encoding lines and a body.
+// drawFraming adds Content-Length / Transfer-Encoding lines and a body. The
+// framing class is the product of a Content-Length class and a
+// Transfer-Encoding class; a request must be flagged iff its Content-Length
+// values disagree or its Transfer-Encoding does not end in "chunked".
 func (g *genCtx) drawFraming(h *hset) {
 	rng := g.rng
 	body := []byte("hello")
 	cl := strconv.Itoa(len(body))
 	chunkedBody := []byte("5\r\nhello\r\n0\r\n\r\n")
-	classes := []string{"none", "none", "cl", "cl", "te-chunked"}
-	if g.mode != "proxy" && !g.resp {
-		classes = append(classes, "cl-dup-equal", "te-chunked+cl")
-	}
-	if g.mode == "built" && !g.resp {
-		classes = append(classes, "cl-list-equal", "cl-conflict", "cl-conflict", "te-gzip-chunked", "te-2lines-ok", "te-bad", "te-bad", "te-bad+cl")
+	cls := []string{"none", "none", "one", "one"}
+	tes := []string{"none", "none", "none", "chunked"}
+	switch {
+	case g.resp || g.mode == "proxy":
+		// what net/http relays unchanged: at most one of the two
+	case g.mode == "parsed":
+		// what net/http's request parser accepts
+		cls = append(cls, "dup-equal")
+	default: // built: every combination reaches the stack
+		cls = []string{"none", "one", "dup-equal", "list-equal", "conflict-lines", "conflict-list", "conflict-3"}
+		tes = []string{"none", "none", "chunked", "chunked", "gzip-chunked", "2lines-ok", "chunked-gzip", "identity", "garbage", "2lines-bad"}
 		if h.self != "" {
 			// never combine a loop entry with bad framing
-			classes = classes[:7]
+			cls = cls[:4]
+			tes = tes[:6]
 		}
 	}
-	h.framing = classes[rng.Intn(len(classes))]
+	c, t := cls[rng.Intn(len(cls))], tes[rng.Intn(len(tes))]
+	if (g.resp || g.mode == "proxy") && c != "none" && t != "none" {
+		t = "none"
+	}
 	var fs []msgx.Field
-	switch h.framing {
-	case "none":
-	case "cl":
+	clName := func() string { return mangleCase(rng, "Content-Length") }
+	switch c {
+	case "one":
 		fs = append(fs, msgx.Field{Name: "Content-Length", Value: cl})
-		h.clValue, h.body = cl, body
-	case "cl-dup-equal":
-		fs = append(fs, msgx.Field{Name: "Content-Length", Value: cl}, msgx.Field{Name: "content-length", Value: cl})
-		h.clValue, h.body = cl, body
-	case "cl-list-equal":
+		h.clValue = cl
+	case "dup-equal":
+		fs = append(fs, msgx.Field{Name: "Content-Length", Value: cl}, msgx.Field{Name: clName(), Value: cl})
+		h.clValue = cl
+	case "list-equal":
 		fs = append(fs, msgx.Field{Name: "Content-Length", Value: cl + ", " + cl})
-		h.clValue, h.body = cl, body
-	case "cl-conflict":
-		switch rng.Intn(3) {
-		case 0:
-			fs = append(fs, msgx.Field{Name: "Content-Length", Value: cl}, msgx.Field{Name: "Content-Length", Value: "6"})
-		case 1:
-			fs = append(fs, msgx.Field{Name: "Content-Length", Value: cl + ", 7"})
-		default:
-			fs = append(fs, msgx.Field{Name: "Content-Length", Value: cl}, msgx.Field{Name: "CONTENT-LENGTH", Value: cl}, msgx.Field{Name: "Content-Length", Value: "0"})
-		}
-		h.flagged, h.body = true, body
-	case "te-chunked":
-		fs = append(fs, msgx.Field{Name: mangleCase(rng, "Transfer-Encoding"), Value: "chunked"})
-		h.teChunked, h.body = true, chunkedBody
-	case "te-chunked+cl":
-		fs = append(fs, msgx.Field{Name: "Transfer-Encoding", Value: "chunked"}, msgx.Field{Name: "Content-Length", Value: cl})
-		h.teChunked, h.clValue, h.body = true, cl, chunkedBody
-	case "te-gzip-chunked":
-		fs = append(fs, msgx.Field{Name: "Transfer-Encoding", Value: []string{"gzip, chunked", "gzip,chunked", "gzip ,\tchunked"}[rng.Intn(3)]})
-		h.teChunked, h.body = true, chunkedBody
-	case "te-2lines-ok":
-		fs = append(fs, msgx.Field{Name: "Transfer-Encoding", Value: "gzip"}, msgx.Field{Name: "transfer-encoding", Value: "chunked"})
-		h.teChunked, h.body = true, chunkedBody
-	case "te-bad", "te-bad+cl":
-		switch rng.Intn(4) {
-		case 0:
-			fs = append(fs, msgx.Field{Name: "Transfer-Encoding", Value: "gzip"})
-		case 1:
-			fs = append(fs, msgx.Field{Name: mangleCase(rng, "Transfer-Encoding"), Value: "chunked, gzip"})
-		case 2:
-			fs = append(fs, msgx.Field{Name: "Transfer-Encoding", Value: "chunked"}, msgx.Field{Name: "Transfer-Encoding", Value: "identity"})
-		default:
-			fs = append(fs, msgx.Field{Name: "Transfer-Encoding", Value: "deflate"})
-		}
-		if h.framing == "te-bad+cl" {
-			fs = append(fs, msgx.Field{Name: "Content-Length", Value: cl})
-		}
-		h.flagged, h.body = true, body
+		h.clValue = cl
+	case "conflict-lines":
+		fs = append(fs, msgx.Field{Name: "Content-Length", Value: cl}, msgx.Field{Name: clName(), Value: "6"})
+		h.flagged = true
+	case "conflict-list":
+		fs = append(fs, msgx.Field{Name: clName(), Value: cl + []string{", 7", ",7", " , 0"}[rng.Intn(3)]})
+		h.flagged = true
+	case "conflict-3":
+		fs = append(fs, msgx.Field{Name: "Content-Length", Value: cl}, msgx.Field{Name: clName(), Value: cl}, msgx.Field{Name: "Content-Length", Value: "0"})
+		h.flagged = true
+	}
+	teName := func() string { return mangleCase(rng, "Transfer-Encoding") }
+	switch t {
+	case "chunked":
+		fs = append(fs, msgx.Field{Name: teName(), Value: "chunked"})
+		h.teChunked = true
+	case "gzip-chunked":
+		fs = append(fs, msgx.Field{Name: teName(), Value: []string{"gzip, chunked", "gzip,chunked", "gzip ,\tchunked"}[rng.Intn(3)]})
+		h.teChunked = true
+	case "2lines-ok":
+		fs = append(fs, msgx.Field{Name: "Transfer-Encoding", Value: "gzip"}, msgx.Field{Name: teName(), Value: "chunked"})
+		h.teChunked = true
+	case "chunked-gzip":
+		fs = append(fs, msgx.Field{Name: teName(), Value: []string{"chunked, gzip", "chunked,gzip"}[rng.Intn(2)]})
+		h.flagged, h.teBad = true, true
+	case "identity":
+		fs = append(fs, msgx.Field{Name: teName(), Value: "identity"})
+		h.flagged, h.teBad = true, true
+	case "garbage":
+		fs = append(fs, msgx.Field{Name: teName(), Value: []string{"gzip", "deflate", "x-unknown", "chunkedd", "chunked;q=1"}[rng.Intn(5)]})
+		h.flagged, h.teBad = true, true
+	case "2lines-bad":
+		fs = append(fs, msgx.Field{Name: "Transfer-Encoding", Value: "chunked"}, msgx.Field{Name: teName(), Value: "identity"})
+		h.flagged, h.teBad = true, true
+	}
+	h.clConflict = strings.HasPrefix(c, "conflict")
+	h.framing = "cl=" + c + ",te=" + t
+	switch {
+	case h.teChunked:
+		h.body = chunkedBody
+	case c != "none":
+		h.body = body
 	}
 	h.fields = interleave(rng, append(h.fields, fs...))
 }
@@ -820,11 +838,11 @@ func (d *direct) one(r *vh.Run, c c14Case) {
 		return
 	case h.flagged:
 		if mErr == nil {
-			k := "cl-conflict"
-			if strings.HasPrefix(h.framing, "te-") {
-				k = "te-not-chunked"
+			k := "te-not-chunked"
+			if h.clConflict {
+				k = "cl-conflict"
 			}
-			viol(verdict{"C14:bad-framing:" + k, "request with framing class " + h.framing + " was not flagged: ModifyRequest returned nil"})
+			viol(verdict{"C14:bad-framing:" + k, "request with framing class " + h.framing + " (conflicting Content-Length: " + strconv.FormatBool(h.clConflict) + ", Transfer-Encoding not ending in chunked: " + strconv.FormatBool(h.teBad) + ") was not flagged: ModifyRequest returned nil"})
 		} else {
 			r.Count("bad_framing_flagged", 1)
 		}
@@ -978,11 +996,12 @@ func (p *proxyRun) one(r *vh.Run, c c14Case) {
 	g.drawFraming(rh)
 	rhead := headText("HTTP/1.1 200 OK", rh.fields)
 	respWire := append([]byte(rhead), rh.body...)
-	if rh.framing == "none" {
+	noFraming := rh.clValue == "" && !rh.teChunked
+	if noFraming {
 		// a response without framing headers is close-delimited
 		respWire = append(respWire, "tail"...)
 	}
-	closeOrigin := rh.framing == "none"
+	closeOrigin := noFraming
 	witness := map[string]interface{}{"mode": "proxy", "request": head, "response": rhead, "instance": p.instance}
 	r.Eval(1)
 
